@@ -628,7 +628,9 @@ def run(tier, seed, replay=None):
     # translator tie (Props/C20Gen.v): the FASTA / PHYLIP readers generated from the source (Gen/CharIO.v,
     # py/dv/gen_chario.py) equal the models of C20Model.v, so the totality theorems hold of generated code; and
     # NexusReader._parse_format_statement / _read_character_states (Gen/NexusChars.v, py/dv/gen_nexuschars.py)
-    # equal the skeleton's parse_format / read_character_states
+    # equal the skeleton's parse_format / read_character_states; _parse_dimensions_statement, _get_taxon,
+    # _process_discrete_matrix_data and _parse_matrix_statement equal parse_dimensions / get_taxon / parse_matrix, and
+    # nexus_matrix_dims / nexus_matrix_rows are restated for the generated MATRIX statement
     ok_gen = core.proof_stage(ctx, ["-k", "Props/C20Gen.vo"], props_file="Props/C20Gen.v", gen_needed=("CharIO", "NexusChars"))
     if not (ok and ok_gen):
         core.broken_proof(ctx, search)
